@@ -183,7 +183,14 @@ def check_cli(ctx, stream, asms):
         got = sorted((g[1], int(g[2]), int(g[3]), g[5], int(g[6]), int(g[7])) for g in got)
         frag = {r["oid"]: r for s in a for r in s["rows"] if r["t"] == "F"}
         exp = sorted((frag[x]["name"], frag[x]["start"], frag[x]["end"], frag[y]["name"], frag[y]["start"], frag[y]["end"]) for x, y in scan_oracle(a))
-        out.case(stream, {"agp": txt}, ("cli", len(exp)))
+        # the model of the CLI (Model/AsmFormat.lean): the report text printed to STDERR and the AGP written to STDOUT
+        if ctx.driver and hasattr(res, "stderr"):
+            m = ctx.driver.batch([{"id": 0, "kind": "asmformat", "input_format": "AGP", "output_file": None, "format": "AGP", "name": None, "qc": True,
+                                   "files": [], "stdin": txt}])[0]
+            out.compare(stream + ":model", {"agp": txt}, {"stdout": res.stdout, "stderr": err, "error": (conv.errkind(res.exception) if res.exception is not None and not isinstance(res.exception, SystemExit) else None)},
+                        {"stdout": m["written"], "stderr": "".join(x + "\n" for x in []) + "".join(m["reports"]), "error": m["error"]}, ("cli-model", len(exp)))
+        else:
+            out.case(stream, {"agp": txt}, ("cli", len(exp)))
         if res.exit_code != 0 or got != exp:
             out.oracle_fail(stream, {"agp": txt}, "asm-format --qc-overlaps report differs from brute-force pairs",
                             detail={"got": got, "expected": exp, "exit": res.exit_code})
